@@ -142,14 +142,21 @@ func vScenarioC10(rc *runCtx) {
 	}
 	// the stop may come after an earlier pause of this transfer (question opened, left open for a long while - the
 	// user asked never to time out - and answered "continue"): the server's stop is no slower for it
-	priorPause := !enumerated && cfg.upload && (cfg.protocol == 0 || cfg.protocol >= 3) && tp.Bool("c10.priorpause", 150)
+	priorPause := !enumerated && cfg.upload && (cfg.protocol == 0 || cfg.protocol >= 3) && tp.Bool("c10.priorpause", 300)
 	var priorLen time.Duration
 	if priorPause {
 		cfg.timeout = 0
 		o.flags = cfg.flags()
 		rc.res.Scenario["flags"] = strings.Join(o.flags, " ")
-		how = []string{"sigint", "sigterm"}[tp.Draw("c10.priorhow", 2)]
+		how = []string{"sigint", "sigterm", "user-keep", "api-keep", "user-delete"}[tp.Draw("c10.priorhow", 5)]
 		priorLen = time.Duration(40+tp.Draw("c10.priorlen", 120)) * time.Second
+	}
+	// the user may have asked never to time out: a stop still ends both sides (the peer is told, it does not wait)
+	if !priorPause && !enumerated && tp.Bool("c10.notimeout", 150) {
+		cfg.timeout = 0
+		o.flags = cfg.flags()
+		rc.res.Scenario["flags"] = strings.Join(o.flags, " ")
+		rc.fault("never-time-out")
 	}
 	T := time.Duration(cfg.timeout) * time.Second
 	x := newXferWorld(rc, o)
@@ -182,7 +189,11 @@ func vScenarioC10(rc *runCtx) {
 			})
 		})
 	}
-	vOnChunk(rc, x, stopArmed, pm, func() {
+	stopPm := pm
+	if priorPause {
+		stopPm = 1000 // the stop follows the continue closely: what the pause left behind is still in effect
+	}
+	vOnChunk(rc, x, stopArmed, stopPm, func() {
 		rc.fault("stop-" + how)
 		switch how {
 		case "user-keep", "user-delete":
